@@ -49,6 +49,11 @@ Ctx == /\ Is("ctx") /\ Adv
        /\ IF open /\ Ev.where \notin {"at-cleanup", "after"}
           THEN /\ ctxs' = ctxs \cup {Ev.id}
                /\ viol' = viol \cup If(Ev.err # "nil", "context_dead_during_call") \cup If(ctxs \ {Ev.id} # {}, "contexts_differ")
+          ELSE IF ~open /\ Ev.where \notin {"at-cleanup", "after"} /\ Ev.err = "nil"
+          \* a goroutine still running after the property function has returned (joined by a cleanup) is handed a LIVE context: it can only be the
+          \* invocation's one (not yet cancelled) -- never a second one
+          THEN /\ ctxs' = ctxs \cup {Ev.id}
+               /\ viol' = viol \cup If(ctxs # {} /\ Ev.id \notin ctxs, "contexts_differ")
           ELSE /\ ctxs' = ctxs /\ viol' = viol
        /\ UNCHANGED <<scen, regs, runs, sig, gfailed, open, solo>>
 
